@@ -1162,7 +1162,9 @@ class NestedPipeFunc(PipeFunc):
     def _all_inputs(self) -> tuple[str, ...]:
         inputs: set[str] = set()
         for f in self.pipeline.functions:
-            inputs.update(f.parameters)
+            # A parameter that is bound in a nested function is fixed there and
+            # must not become a (required) parameter of the `NestedPipeFunc`.
+            inputs.update(p for p in f.parameters if p not in f._bound)
         return tuple(sorted(inputs))
 
     @functools.cached_property
